@@ -17,7 +17,7 @@ a VIOLATION; kinds without a repair mask the programs using them (counted).
 Python is glue: it writes abstract syntax as text, runs souffle and compares texts / JSON / rows."""
 import json, os, re, random, hashlib, shutil, concurrent.futures as cf
 from .. import build, tlc, known, gen, render, evalcore, syntaxgen as sg, souffle as sf
-from ..common import SPEC, workdir, seed, Result, write_data, NCPU, log, canon
+from ..common import SPEC, workdir, seed, Result, NCPU, canon
 from ..common import run as sh
 from ..evidence import finish
 
@@ -245,7 +245,7 @@ def do_probe(ctx, j, idx):
     K = j["kind"]; text = sg.program(j["items"])
     d = os.path.join(ctx.wd, "probe", re.sub(r"[^\w.-]", "_", "%s@%s" % (K, j["variant"])))
     r = pipeline(os.path.join(d, "raw"), text, set(), j["expect"])
-    out = {"kind": K, "variant": j["variant"], "raw": r, "text": text, "dir": d, "repaired": None}
+    out = {"kind": K, "variant": j["variant"], "raw": r, "text": text, "dir": d, "repaired": None, "expect": j["expect"], "kinds": sorted(j["kinds"])}
     used = set(j["kinds"]) & ctx.listed
     if r["status"] == "fail" and K in ctx.listed and used <= sg.REPAIRABLE:
         out["repaired"] = pipeline(os.path.join(d, "repaired"), text, used, j["expect"])
@@ -290,7 +290,8 @@ def run(tier, replay=None):
         K = o["kind"]; r = o["raw"]; res.count("probes")
         ctx.evals += 1; ctx.texts.add(o["text"])
         st = kind_status.setdefault(K, {"pass": 0, "fail": [], "rejected": 0})
-        meta = {"property": PID, "family": "probe", "kind": K, "variant": o["variant"], "text": o["text"], "result": r, "dir": o["dir"]}
+        meta = {"property": PID, "family": "probe", "kind": K, "variant": o["variant"], "text": o["text"], "result": r, "dir": o["dir"],
+                "expect": o["expect"], "kinds": o["kinds"]}
         if r["status"] == "ok":
             st["pass"] += 1; ctx.nontrivial.add(o["text"]); res.cov["traces_validated_against_impl"] += 1
             shutil.rmtree(o["dir"], ignore_errors=True)
@@ -345,8 +346,9 @@ def run(tier, replay=None):
     pool.shutdown()
     res.cov.update({"evaluations": ctx.evals, "distinct_nontrivial": len(ctx.nontrivial),
                     "rule": "a case is one program text taken through print -> parse -> print -> RAM_initial equality -> outputs; "
-                            "cases come from TLC (probe per construct kind and variant; all expression trees with <= 2 operators, "
-                            "fully / minimally parenthesised; seeded compositions of 3 probes) and from the seeded generator; a case "
+                            "cases come from TLC (probe per construct kind and variant; all expression trees with <= 2 operators written "
+                            "with the parentheses the grammar needs - thorough: also fully parenthesised, and <= 3 operators over a "
+                            "reduced alphabet; seeded compositions of 3 probes) and from the seeded generator; a case "
                             "counts as distinct and non-trivial when its source text is new, souffle accepts it (the property's "
                             "premise) and the pipeline reached a verdict (ok or a failing stage)",
                     "construct_kinds": len(catalogue), "kinds_failing": failing, "kinds_listed": sorted(listed),
